@@ -107,6 +107,11 @@ func (s *SelfManaged) Receive(c *actor.Context) {
 		s.handleMemberPing(c)
 	case memberLeave:
 		member := s.members.GetByHost(msg.ListenAddr)
+		// Every send to a node that is gone or never existed produces an unreachable
+		// report: the address does not have to belong to a member.
+		if member == nil {
+			return
+		}
 		s.removeMember(member)
 	case *actor.Ping:
 	case actor.Initialized:
